@@ -83,8 +83,17 @@ class Gen:
                 c = r.random()
                 if c < 0.3:
                     s = r.choice(["ab", "", "x y", "Q"]); pieces.append('"%s"' % s); text += s
-                elif c < 0.55:
+                elif c < 0.45:
                     n = r.randrange(0, 70000); pieces.append(str(n)); text += "%x" % n
+                elif c < 0.55:
+                    # @hex / @bin as pieces, also several in a row (each is its own expansion)
+                    for _ in range(r.choice([1, 2, 2, 3])):
+                        n = r.randrange(0, 70000)
+                        if r.random() < 0.7:
+                            pieces.append("@hex %d" % n); text += "%x" % n
+                        else:
+                            pieces.append("@bin %d" % n); text += bin(n)[2:]
+                    pieces.append('"|"'); text += "|"          # the operand of @hex/@bin is an expression: end it with a string piece
                 elif c < 0.7:
                     l = r.choice(["lbl", "foo.bar", ".loc"]); pieces.append(l); text += l
                 elif c < 0.8:
